@@ -82,7 +82,7 @@ def astGraph (s : Sig) : Graph :=
 inductive PKind where
   | opaque | slice
   | struct                    -- lifetimes are the struct's generic arguments, by definition position
-  | optStruct | optSlice      -- `DiplomatOption<Struct>` / `Option<&[T]>`: reach the `unreachable!` arm when borrowed
+  | optStruct | optSlice      -- `DiplomatOption<Struct>` / `Option<&[T]>`
   | other
   deriving Repr, DecidableEq
 
@@ -101,15 +101,27 @@ structure Edge where
   kind : EdgeKind
   deriving Repr, DecidableEq
 
-/-- `visit_param` for one output lifetime whose longer-set is `longer`; `none` = the `unreachable!` panic -/
+/-- does this use-site lifetime belong to the longer-set (`'static` / anonymous never do) -/
+def ltIn (longer : List Nat) : Option Nat → Bool
+  | some l => decide (l ∈ longer)
+  | none => false
+
+/-- `ty.unwrap_option()`: an optional parameter borrows exactly like its payload -/
+def PKind.unwrapOption : PKind → PKind
+  | .optStruct => .struct
+  | .optSlice => .slice
+  | k => k
+
+/-- `visit_param` for one output lifetime whose longer-set is `longer`; `none` = the `unreachable!` arm
+    (a lifetime-carrying parameter that is neither opaque, slice nor struct — lowering never produces one) -/
 def visitParam (longer : List Nat) (p : Param) : Option (List Edge) :=
-  match p.kind with
+  match p.kind.unwrapOption with
   | .struct =>
     some ((p.lts.zipIdx).filterMap fun (lt, i) => match lt with
       | some l => if l ∈ longer then some ⟨p.name, .structLt i⟩ else none
       | none => none)
   | k =>
-    if p.lts.any (fun lt => match lt with | some l => l ∈ longer | none => false) then
+    if p.lts.any (ltIn longer) then
       match k with
       | .opaque => some [⟨p.name, .opaque⟩]
       | .slice => some [⟨p.name, .slice⟩]
